@@ -281,12 +281,10 @@ func restartDirScen(c *Ctx) {
 		s.Violate("C03.cap", "start-up", "accounted %d > max_size %d after start-up", o.Cnt.CurrentSize, cfg.MaxSize)
 	}
 	world.Quiescence(s, n, world.QuiescenceOpts{})
-	if s.Failed() {
-		return
-	}
+	brokenIndex := s.Failed() // the read-back below is still judged (C20); the later-order phase is not
 	// C09.later-order: later uploads evict the survivors in access-time order
 	// (done before anything reads the entries, in half of the runs).
-	if r.Chance(1, 2) && len(present) > 0 {
+	if r.Chance(1, 2) && len(present) > 0 && !brokenIndex {
 		surv := make([]string, 0, len(present))
 		for k := range present {
 			surv = append(surv, k)
@@ -346,9 +344,11 @@ func restartDirScen(c *Ctx) {
 		c.CheckPanics("g0:p")
 		s.Drain()
 		world.Quiescence(s, n, world.QuiescenceOpts{})
-		if s.Failed() {
+		if s.Panicked {
 			return
 		}
+		// (no early exit on a directory/index violation: what the entries read
+		// back as is judged in any case, it is what C20 is about)
 	}
 	// C09.kept / C20.reads-foreign: same key, same bytes, same size on read paths
 	var keys []string
